@@ -81,3 +81,91 @@ func (p *pkg) fieldInit(fn, field string) string {
 	}
 	return res
 }
+
+// callOrder: the calls in function fn (source order, closures included) whose callee text ends with one of the
+// given suffixes, joined by " < ". Consecutive duplicates are collapsed.
+func (p *pkg) callOrder(fn string, suffixes ...string) string {
+	fd := p.findFunc(fn)
+	if fd == nil {
+		fail("function %s.%s not found", p.name, fn)
+		return "?"
+	}
+	var out []string
+	ast.Inspect(fd.Body, func(n ast.Node) bool {
+		ce, ok := n.(*ast.CallExpr)
+		if !ok {
+			return true
+		}
+		name := exprString(ce.Fun)
+		for _, s := range suffixes {
+			if name == s || (len(name) > len(s) && name[len(name)-len(s):] == s && (s[0] == '.' || name[len(name)-len(s)-1] == '.')) {
+				if len(out) == 0 || out[len(out)-1] != s {
+					out = append(out, s)
+				}
+				break
+			}
+		}
+		return true
+	})
+	res := ""
+	for i, s := range out {
+		if i > 0 {
+			res += " < "
+		}
+		res += s
+	}
+	return res
+}
+
+// assignedExpr: text of the right-hand side of the first `name := expr` / `name = expr` in fn.
+func (p *pkg) assignedExpr(fn, name string) string {
+	fd := p.findFunc(fn)
+	if fd == nil {
+		fail("function %s.%s not found", p.name, fn)
+		return "?"
+	}
+	res := "?"
+	ast.Inspect(fd.Body, func(n ast.Node) bool {
+		as, ok := n.(*ast.AssignStmt)
+		if !ok || res != "?" {
+			return true
+		}
+		for i, l := range as.Lhs {
+			if id, ok := l.(*ast.Ident); ok && id.Name == name && i < len(as.Rhs) {
+				res = exprString(as.Rhs[i])
+			}
+		}
+		return true
+	})
+	if res == "?" {
+		fail("%s.%s: no assignment to %s", p.name, fn, name)
+	}
+	return res
+}
+
+// assignedExprSel: like assignedExpr but the left-hand side is matched by its printed text (e.g. "w.nextSequence");
+// returns the LAST such assignment in the function.
+func (p *pkg) assignedExprSel(fn, lhs string) string {
+	fd := p.findFunc(fn)
+	if fd == nil {
+		fail("function %s.%s not found", p.name, fn)
+		return "?"
+	}
+	res := "?"
+	ast.Inspect(fd.Body, func(n ast.Node) bool {
+		as, ok := n.(*ast.AssignStmt)
+		if !ok {
+			return true
+		}
+		for i, l := range as.Lhs {
+			if exprString(l) == lhs && i < len(as.Rhs) {
+				res = exprString(as.Rhs[i])
+			}
+		}
+		return true
+	})
+	if res == "?" {
+		fail("%s.%s: no assignment to %s", p.name, fn, lhs)
+	}
+	return res
+}
